@@ -56,6 +56,7 @@ def make_case(index, rng, tier):
     if rng.randrange(4) == 0:
         fault = {"op": rng.choice(["setgid", "setuid", "initgroups", "chown"]), "nth": rng.randrange(1, 5)}
     return {"user": user, "group": group, "initgroups": rng.randrange(2) == 0, "unix": rng.randrange(2) == 0,
+            "via_env": rng.randrange(4) == 0 and not any(e["do"] == "hup_identity" for e in evs),
             "workers": rng.randrange(1, 3), "events": evs, "fault": fault,
             "buggify": {"pyticks": rng.randrange(3) == 0, "fork_child_first": rng.randrange(2) == 0, "random_spawn_delay": rng.randrange(2) == 0}}
 
@@ -72,11 +73,17 @@ def run(case, choices):
     bind = "unix:/run/g.sock" if case["unix"] else "127.0.0.1:8000"
     cfg = {"workers": case["workers"], "timeout": 30, "graceful_timeout": 1, "bind": [bind], "proc_name": "m0", "pidfile": "/run/g.pid",
            "initgroups": case["initgroups"]}
-    if case["user"] is not None:
+    via_env = case.get("via_env")
+    if case["user"] is not None and not via_env:
         cfg["user"] = case["user"]
-    if case["group"] is not None:
+    if case["group"] is not None and not via_env:
         cfg["group"] = case["group"]
     w = master.World(sim, cfg)
+    if via_env:
+        # the identity comes from GUNICORN_CMD_ARGS in the environment the server was started with
+        w.env_identity = {k: v for k, v in (("user", case["user"]), ("group", case["group"])) if v is not None}
+        w.base_env["GUNICORN_CMD_ARGS"] = " ".join("--%s %s" % (k, v) for k, v in w.env_identity.items())
+        sim.probe("identity_via_environment")
     ident = {"user": case["user"], "group": case["group"]}
 
     def wanted():
@@ -105,11 +112,10 @@ def run(case, choices):
         loads.append({"pid": p.pid, "name": p.name, "ppid": p.ppid, "t": sim.now, "uids": (p.ruid, p.euid, p.suid), "want": state_want(p),
                       "gids": (p.rgid, p.egid, p.sgid), "groups": sorted(p.groups), "gen": gen})
     def state_want(p):
-        # the identity a worker must have is the one of the configuration its master had loaded when it forked it
-        a = w.masters.get(p.pid)       # the child's clone of the arbiter (still registered during boot)
-        if a is not None:
-            return (a.cfg.uid, a.cfg.gid)
-        return wanted()
+        # the identity a worker must have: what the world configured for the master that forked it, as of that master's
+        # last (re)load - NOT what the master believes (an upgraded master that lost part of its configuration is the bug)
+        u, g = w.intended.get(p.ppid, (ident["user"], ident["group"]))
+        return (NAME2UID.get(u, u) if u is not None else 0, NAME2GID.get(g, g) if g is not None else 0)
     w.on_app_load = on_load
     m = w.start_master()
     masters = [m]
